@@ -292,6 +292,9 @@ impl RK23 {
                             k1.copy_from_slice(&k4);
                         }
                     }
+                } else {
+                    // No callback: the next step still starts from the derivative at the new point.
+                    k1.copy_from_slice(&k4);
                 }
 
                 // Adjust step size
